@@ -6,10 +6,13 @@ import Model.Store.Project
 import Model.Store.Search
 import Lemmas.StoreSqlSmallScope
 import Lemmas.StoreSqlFrame
+import Lemmas.StoreSqlMain
 import Lemmas.LogTimeAccept
 import Model.Store.FilterSem
 import Lemmas.FilterSem
-/-! C04 — what the read API reports is the replay of the log   (**PARTIAL**: see `checks/c04.py` META).
+/-! C04 — what the read API reports is the replay of the log   (**PARTIAL**: see `checks/c04.py` META; the projection half of
+stage 2 is now proved for every history — `projection_refines_replay`, `ledger_frame` — what stays partial is that PostgreSQL is
+never executed and that the Go read queries are not evaluated).
 
 Stage 1 (this part of the file): the laws of `Store.replay`, the independent fold the property speaks about.  They hold
 for EVERY log sequence (any number of ledgers in the bucket, back- and future-dated transactions, reverts, metadata set
@@ -350,7 +353,7 @@ example : acctMeta (replay exLogs "l1") "alice" = [] ∧ acctMeta ((replay exLog
 example : Interleave (exLogs.filter (fun x => x.ledger == "l1")) (exLogs.filter (fun x => x.ledger != "l1")) exLogs := by
   repeat (first | exact .nil | apply Interleave.left | apply Interleave.right)
 
--- ================================================================ STAGE 2 (model level only; PARTIAL)
+-- ================================================================ STAGE 2 (model level only)
 /-! Everything below is about `Generated/Schema.lean`: the PL/pgSQL functions and triggers of `0-init-schema.sql` as
 translated on THIS run by `extract/plpgsql` into applications of the combinators of `Model/Store/Sql.lean` (trusted reading
 of PostgreSQL).  Nothing here was executed by PostgreSQL.  `StoreSql.project` inserts the log entries one by one into `logs`
@@ -360,10 +363,11 @@ the four history triggers, …) fill the tables; `StoreSql.discrepancies` compar
 (iii) metadata and its revisions, (iv) `reverted_at`, and `frameBad` is (v): rows of other ledgers untouched, step by step. -/
 open StoreSql Sql Schema
 
-/-- the statement one would like for EVERY log sequence.  It is **not proved**: what is proved below is its restriction to
-all histories of ≤ 2 entries over a small alphabet (`projection_refines_replay_partial_small_scope`), one rich history, and
-unbounded facts about some of the generated functions.  Before the repairs of `0-init-schema.sql` (fixes/c04-backdated-move.diff, fixes/c04-self-posting.diff) it was
-FALSE (`wBackdated`, `wSelf` below were counterexamples); no counterexample is known for the current schema. -/
+/-- the statement for EVERY association-list history, without any hypothesis.  As stated it is **false** — `wDuplicateKey` below: a
+metadata "map" that lists a key twice is not a JSON object, `J.beq` is not even reflexive on it — and **proved** under the one hypothesis
+that the metadata maps are maps: `projection_refines_replay` (section "the full theorem" at the end of this namespace).  Before the
+repairs of `0-init-schema.sql` (fixes/c04-backdated-move.diff, fixes/c04-self-posting.diff) it was false on well-formed histories
+too (`wBackdated`, `wSelf` below were counterexamples). -/
 def ProjectionRefinesReplay : Prop := ∀ logs : List CLog, discrepancies logs = [] ∧ frameBad logs = []
 
 /-- DESIGN §6 #24: alice receives 10 dated 100, then 5 dated 50 (a transaction dated before every existing move) -/
@@ -452,8 +456,7 @@ holds the evaluation so that it is cached on its own): for EVERY history of one 
 `Model/Store/Search.lean` (316 histories: sends a→b, b→a, a→a dated before / at / after everything, script metadata, reverts,
 metadata set and delete on an account and a transaction, a second ledger), the generated projection agrees with the replay on
 every clause (i)–(iv) — `discrepancies = []`, no (account, asset) excepted — and never touches another ledger's rows (v).
-What is missing for the full theorem: an induction over arbitrary log sequences through the generated definitions
-(the executable comparison of the check covers longer histories by sampling and by enumeration to depth 3 / 4). -/
+Superseded by `projection_refines_replay` (every history); kept as an independent, evaluation-only confirmation. -/
 theorem projection_refines_replay_partial_small_scope : (Search.histories 2).all smallScopeOk = true :=
   StoreSql.smallScope_depth2
 
@@ -487,9 +490,9 @@ theorem metadata_updates_keep_reverted_at (db : DB) (l id v d : Val) :
 
 /-- clause (v), **partial — three of the generated functions, but every database state**: `revert_transaction`,
 `update_transaction_metadata` and `delete_transaction_metadata` called for ledger `l` (with the revision rows their
-trigger appends) leave the rows of every other ledger `l'` in all five tables exactly as they were.  Missing: the insert
-path (`insert_transaction` → `insert_posting` → `insert_move`, `upsert_account`, `delete_account_metadata`), covered only by
-evaluation (`projection_refines_replay_partial_small_scope`, the check's streams). -/
+trigger appends) leave the rows of every other ledger `l'` in all five tables exactly as they were.  The insert
+path (`insert_transaction` → `insert_posting` → `insert_move`, `upsert_account`, `delete_account_metadata`) is covered by
+`ledger_frame` below (every history, every entry). -/
 theorem projection_frame_partial (db : DB) (l l' : String) (hne : l ≠ l') (id v d : Val) :
     ofLedger l' (revert_transaction db (.text l) id d) = ofLedger l' db ∧
     ofLedger l' (update_transaction_metadata db (.text l) id v d) = ofLedger l' db ∧
@@ -497,6 +500,111 @@ theorem projection_frame_partial (db : DB) (l l' : String) (hne : l ≠ l') (id 
   ⟨update_transactions_frame db l l' hne (fun r => Val.eq r.id id) (fun r => { r with reverted_at := d }) (fun _ => rfl),
    update_transactions_frame db l l' hne (fun r => Val.eq r.id id) (fun r => { r with metadata := Val.concat r.metadata v, updated_at := d }) (fun _ => rfl),
    update_transactions_frame db l l' hne (fun r => Val.eq r.id id) (fun r => { r with metadata := Val.sub r.metadata v, updated_at := d }) (fun _ => rfl)⟩
+
+-- ================================================================ STAGE 2, THE FULL THEOREM (every history)
+/-! ### `projection_refines_replay` — proved
+
+How (files `Lemmas/StoreSql*.lean`, ≈ 5 000 lines, no `decide` on histories):
+1. **data refinement** (`StoreSqlAbs`): a typed database `ADB` (ledger a `String`, `seq` a `Nat`, dates and volumes integers, metadata
+   key/value lists) with `conc : ADB → DB`; for every GENERATED function `f` the equation `f (conc A) args = conc (aF A …)` is proved
+   by unfolding the regenerated definition (`upsert_account_conc`, `insert_move_conc`, `insert_posting_conc`,
+   `insert_transaction_conc`, `handle_log_conc`, … up to `stepDB_conc : stepDB 0 (conc A) log = conc (aStep A log)`, every `A`,
+   every `log`).  This is the only layer that looks into `Generated/Schema.lean`; it stops checking when the SQL changes.
+2. **invariants of the typed tables** kept by `aStep`: `Sane` (unique `seq`s, one `accounts` row per (ledger, address), every move
+   names an existing account of its ledger), `VolOk` (every move carries the totals of the moves of its account and asset that are
+   not after it by `seq` resp. by (effective_date, seq) — `volOk_insertMove` is the heart: the two `select … into`, the insert,
+   the `update` of the later-dated rows), `MovesRel` / `TxsRel` / `AcctsRel` (rows of a ledger ↔ replayed moves / transactions with
+   metadata, revisions and `reverted_at` / accounts with metadata and revisions; the revision tables canonicalise to the replayed
+   metadata histories, `Sim`).  During a NEW_TRANSACTION with script metadata the SQL is AHEAD of the replay (`insert_posting` hands
+   the script metadata of a posting's accounts to `upsert_account` at once, the replay applies it after all postings): `AcctOkX`.
+3. **the invariant implies the comparison** (`StoreSqlFinal`): `discrepanciesOf (conc A) l (v l) = []`; `StoreSqlRefl`: rows are `==`
+   to themselves, so equality of the other ledgers' rows gives `frameBad = []`. -/
+
+/-- **`projection_refines_replay`** — for EVERY log sequence (any length, any number of ledgers sharing the bucket, transactions dated
+in the past or in the future, reverts of anything, metadata set / delete on accounts and transactions that exist or not, account
+metadata written by scripts, ids and dates of any kind) whose metadata maps have distinct keys (`StoreSql.wellFormedHistory`, a
+decidable predicate; see `Model/Store/Project.lean`), what the GENERATED SQL projection stores — accounts, transactions with metadata
+and `reverted_at`, moves with `post_commit_volumes` and `post_commit_effective_volumes`, the two revision tables — agrees with
+`Store.replay` on every clause the executable comparison checks, and no entry touches a row of another ledger.
+
+The hypothesis is about the REPRESENTATION, not about the engine: `Store.Meta` and `Sql.J.obj` are association lists, a jsonb object
+and a Go `map[string]string` cannot list a key twice.  None of the engine's guarantees (C05 ids, C10 revert targets, monotone dates,
+existing metadata targets) is needed: the projection and the replay agree on histories that violate them as well. -/
+theorem projection_refines_replay (logs : List CLog) (hwf : wellFormedHistory logs = true) :
+    discrepancies logs = [] ∧ frameBad logs = [] :=
+  projection_refines_replay_main logs hwf
+
+/-- **`ledger_frame`** (clause (v), unbounded, NO hypothesis, equality rather than `==`): whatever history `pre` has been projected and
+whatever the next entry is, inserting it leaves every row of every OTHER ledger — in `transactions`, `transactions_metadata`, `accounts`,
+`accounts_metadata` and `moves` — exactly as it was.  (`insert_move` patches later-dated rows selected by `accounts_seq` and asset
+without a ledger predicate; it stays inside the ledger because a move's `accounts_seq` names a row of `accounts` with the move's
+ledger and `accounts.seq` is unique: `StoreSql.Sane`.) -/
+theorem ledger_frame (pre : List CLog) (log : CLog) :
+    otherRows (stepDB 0 (project pre) log) log.ledger = otherRows (project pre) log.ledger :=
+  ledger_frame_step pre log
+
+/-- the generated trigger chain, one `INSERT INTO logs`, IS the typed step — for every typed database and every entry -/
+theorem generated_step_refines_typed_step (A : ADB) (log : CLog) : stepDB 0 (conc A) log = conc (aStep A log) := stepDB_conc A log
+
+/-- **`insert_move` maintains the running and the effective volumes** (every database state): on a database whose `moves` rows carry
+consistent totals (`VolOk`), the GENERATED `insert_move` — called, as `insert_posting` does, for an existing account row, with
+`_account_exists` false only when no move refers to that account yet — yields a database whose rows do: the new row carries the totals
+of all rows of its account and asset (resp. of those dated `≤` its date), every later-dated row got the amount added. -/
+theorem insert_move_maintains_volumes (A : ADB) (txSeq : Val) (l : String) (ins : Val) (eff : Int) (a x : String) (amt : Int) (src ex : Bool)
+    (hs : Sane A) (hv : VolOk A.moves) (hacc : A.accounts.any (acctKey l a) = true)
+    (hex : ex = false → ∀ r ∈ A.moves, r.acctSeq ≠ acctSeqOf A l a) :
+    ∃ A', insert_move (conc A) txSeq (.text l) ins (.ts eff) (.text a) (.text x) (.int amt) (.bool src) (exVal ex) = conc A' ∧ VolOk A'.moves :=
+  ⟨_, insert_move_conc' A txSeq l ins eff a x amt src ex hacc, volOk_insertMove A txSeq l ins eff a x amt src ex _ hs.mv_lt hv hex⟩
+
+/-- the invariant behind the theorem, for every well-formed history: the projected database is the rendering of a typed database that
+is sane, carries consistent totals, and whose rows of every ledger are the replay's -/
+theorem projection_invariant (logs : List CLog) (hwf : wellFormedHistory logs = true) :
+    ∃ A, project logs = conc A ∧ Inv A (replay logs) :=
+  ⟨_, project_eq logs, inv_steps logs {} _ (wfHistory_of logs hwf) inv_empty⟩
+
+/-- clause (i) in the form a reader of `moves` uses it: for every well-formed history, ledger, account and asset with at least one
+move, the move with the greatest `seq` carries the replayed inputs and outputs -/
+theorem projection_running_volumes (logs : List CLog) (hwf : wellFormedHistory logs = true) (l a x : String)
+    (hm : ∃ m ∈ (replay logs l).moves, m.account = a ∧ m.asset = x) :
+    (col (lastMove (project logs) l a x) (fun r => r.post_commit_volumes) ==
+      volPair (input (replay logs l) When.always a x) (output (replay logs l) When.always a x)) = true := by
+  obtain ⟨A, e, hinv⟩ := projection_invariant logs hwf
+  rw [e]; exact clause_volumes hinv l a x hm
+
+/-- clause (ii) for EVERY date `d` (not only those that occur, which is what the executable comparison looks at): if some move of the
+account and asset is dated `≤ d`, the move last by (effective_date, seq) among those dated `≤ d` carries the replayed inputs and
+outputs by effective date `d` — the invariant `insert_move`'s patching of the later-dated rows maintains -/
+theorem projection_effective_volumes (logs : List CLog) (hwf : wellFormedHistory logs = true) (l a x : String) (d : Int)
+    (hm : ∃ m ∈ (replay logs l).moves, m.account = a ∧ m.asset = x ∧ m.effective ≤ d) :
+    (col (lastEffectiveMove (project logs) l a x d) (fun r => r.post_commit_effective_volumes) ==
+      volPair (input (replay logs l) (When.effectiveBy d) a x) (output (replay logs l) (When.effectiveBy d) a x)) = true := by
+  obtain ⟨A, e, hinv⟩ := projection_invariant logs hwf
+  rw [e]; exact clause_effective hinv l a x d hm
+
+/-- non-vacuity of the hypothesis: the rich example and every history of the small-scope enumeration satisfy it … -/
+theorem wellFormed_examples : wellFormedHistory exLogs2 = true ∧ (Search.histories 2).all wellFormedHistory = true := by
+  constructor
+  · decide
+  · decide +kernel
+
+/-- … (the check evaluates `wellFormedHistory` on every generated history of a run: all of them satisfy it) and the theorem applied to
+the rich example gives what `projection_refines_replay_partial_example` evaluates -/
+theorem projection_refines_replay_exLogs2 : discrepancies exLogs2 = [] ∧ frameBad exLogs2 = [] :=
+  projection_refines_replay exLogs2 wellFormed_examples.1
+
+/-- the hypothesis cannot be dropped for THIS comparison: a metadata "map" listing a key twice is not `==` to itself -/
+def wDuplicateKey : List CLog := [ ⟨"l", 0, 10, "", .newTx ⟨0, [⟨"a", "b", "X", 1⟩], [("k", "v"), ("k", "w")], 10, ""⟩ []⟩ ]
+
+set_option maxRecDepth 100000 in
+theorem wellFormed_needed : wellFormedHistory wDuplicateKey = false ∧ (discrepancies wDuplicateKey).map (·.cls) = ["transaction-metadata", "transaction-metadata-history"] := by
+  decide
+
+theorem projectionRefinesReplay_unrestricted_is_false : ¬ ProjectionRefinesReplay := by
+  intro h
+  have := (h wDuplicateKey).1
+  have h2 := wellFormed_needed.2
+  rw [this] at h2
+  cases h2
 
 /-- DESIGN §6 #22 (latent: the Go read API never passes `_before`, and never calls `aggregate_ledger_volumes`):
 `get_account_balance(…, _before)` picks the latest move BY SEQ among those with `effective_date <= _before` and reads the
